@@ -104,7 +104,14 @@ func (ex *Exec) callFunc(f *ssa.Function, args, freeVars []Term, cc *ssa.CallCom
 		ex.counters["wit."+f.Name()]++
 		for _, w := range ex.contract.Witnesses {
 			if w.Callee == f.Name() && w.N == ex.counters["wit."+f.Name()] {
-				sc := ex.specCtx(ex.paramVars(), h.clone())
+				wv := ex.paramVars()
+				for i, r := range rs {
+					wv[fmt.Sprintf("callresult%d", i)] = SV{r, f.Signature.Results().At(i).Type()}
+					if i == 0 {
+						wv["callresult"] = wv["callresult0"]
+					}
+				}
+				sc := ex.specCtx(wv, h.clone())
 				v := sc.eval(w.Expr.Expr)
 				v.t = ex.q.def("wit_"+w.Name, v.t)
 				if v.typ == nil {
@@ -270,8 +277,13 @@ func (ex *Exec) contractCall(f *ssa.Function, c *Contract, args []Term, h *Heap,
 	if c.Fresh && len(rs) > 0 {
 		q.assume(implies(reach, and(le(q.heapGet(pre, allocKey), rs[0]), lt(rs[0], q.heapGet(h, allocKey)))))
 	}
+	if c.Opaque && len(rs) == 1 {
+		// an opaque function is a (deterministic) function of its arguments: same symbol as in specs
+		q.assume(implies(reach, eq(rs[0], ex.specFunApp(f, c, args, h))))
+	}
 	for _, w := range c.Witnesses {
-		vars[w.Name] = SV{q.fresh("wit_"+w.Name, sInt), types.Typ[types.Int]}
+		wt := ex.P.witnessType(f, w)
+		vars[w.Name] = SV{ex.havocVal("wit_"+w.Name, wt, reach), wt}
 	}
 	sc2 := &SpecCtx{ex: cx, pkg: f.Pkg, vars: vars, heap: h, old: pre}
 	for _, e := range c.Ensures {
@@ -434,6 +446,43 @@ func (ex *Exec) invoke(x ssa.Value, cc *ssa.CallCommon, h *Heap, reach Term) {
 		}
 		if f != nil {
 			rs := ex.contractCall(ex.P.ifaceStub(cc, f), c, append([]Term{recv}, args...), h, reach, x)
+			ex.setResults(x, sig, rs)
+			return
+		}
+	}
+	// few implementers: dispatch on the dynamic type, each arm through its own contract / body
+	if impls := ex.P.implementers(cc.Value.Type()); len(impls) > 0 && len(impls) <= 6 && ex.depth < maxInlineDepth {
+		var conds []Term
+		var heaps []*Heap
+		var results [][]Term
+		ok := true
+		for _, ct := range impls {
+			f := ex.P.lookupMethod(ct, cc.Method.Name())
+			if f == nil || ex.onStack(f) {
+				ok = false
+				break
+			}
+			if f.Synthetic != "" && len(f.Blocks) > 0 && ex.P.contracts.get(funcKey(f)) == nil {
+				// wrapper (e.g. pointer receiver wrapper for a value method): execute it like any small function
+			}
+			g := q.def("disp_"+cc.Method.Name(), and(reach, eq(ifTag(recv), tInt(int64(q.so.tag(ct))))))
+			hc := h.clone()
+			rs := ex.callFunc(f, append([]Term{ex.unbox(ct, recv)}, args...), nil, nil, hc, g, x)
+			conds = append(conds, g)
+			heaps = append(heaps, hc)
+			results = append(results, rs)
+		}
+		if ok {
+			*h = *q.mergeHeaps(conds, heaps)
+			n := sig.Results().Len()
+			rs := make([]Term, n)
+			for i := 0; i < n; i++ {
+				t := results[len(results)-1][i]
+				for k := len(results) - 2; k >= 0; k-- {
+					t = ite(conds[k], results[k][i], t)
+				}
+				rs[i] = q.def("inv_"+cc.Method.Name(), t)
+			}
 			ex.setResults(x, sig, rs)
 			return
 		}
